@@ -5,6 +5,8 @@
 -/
 import MellonProofs.LinearityLemmas
 import MellonProofs.C01
+import MellonProofs.PSDJoint
+import MellonProofs.ShrinkLemmas
 
 open Matrix Finset
 
@@ -247,6 +249,71 @@ theorem columns_independent_dtc {m c' : Nat} {cov : Cov ℝ} {x : Mat ℝ n d} {
         apply nsum_congr
         intro t ht
         rw [hw t ht]
+
+/-! ### shrinkage towards the prior mean -/
+
+/-- In-sample residual of the full model: `predictor(xᵢ) − mu = (K w)ᵢ` for the weight column `w`. -/
+theorem insample_residual {cov : Cov ℝ} {x : Mat ℝ n d} {y : Mat ℝ n c} {mu : ℝ} {sigma : Sigma ℝ n} {jitter : ℝ}
+    {ycf : Option (AnyMat ℝ)} {yIsMean wu : Bool} {s : CondState ℝ n d c}
+    (h : fullCondInit cov x y mu Option.none sigma jitter ycf yIsMean wu = .ok s) (i : Fin n) (col : Nat)
+    (hc : col < c) :
+    (s.mean x).el i col - mu = (toM (gram cov x x) *ᵥ fun j : Fin n => s.weights.el j col) i := by
+  obtain ⟨K', _, _, hxb, hmu, hcov⟩ := C01.full_weights_solve h
+  rw [C01.mean_rowwise s x i col i.isLt hc, C01.mean_formula, hmu, hxb, hcov, add_sub_cancel_left]
+  simp only [Matrix.mulVec, dotProduct, toM_apply]
+  rw [← sum_fin_eq_range (fun j => cov.k (x.row i) (x.row j) * s.weights.el j col)]
+  apply Finset.sum_congr rfl
+  intro j _
+  rw [gram_el cov x x i j i.isLt j.isLt]
+
+/-- **In-sample predictions of the full model shrink monotonically towards the prior mean as sigma grows.**
+    For a positive semi-definite kernel (`PSD.PSDOn`: proved for ExpQuad / Linear expression trees, hypothesis
+    for the other leaves), a scalar noise level and `σ² ≤ σ'²`, the in-sample deviation from the prior mean
+    `Σᵢ (predictor(xᵢ) − mu)²` of every value column does not grow: the regulariser is `max(σ², jitter)` and
+    ridge shrinkage (`Shrink.shrink_mono`) applies. -/
+theorem shrinks_with_sigma {cov : Cov ℝ} {x : Mat ℝ n d} {y : Mat ℝ n c} {mu σ σ' jitter : ℝ} {wu wu' : Bool}
+    {s s' : CondState ℝ n d c}
+    (h : fullCondInit cov x y mu Option.none (.scalar σ) jitter Option.none false wu = .ok s)
+    (h' : fullCondInit cov x y mu Option.none (.scalar σ') jitter Option.none false wu' = .ok s')
+    (hk : PSD.PSDOn d cov.k) (hj : 0 ≤ jitter) (hσ : σ * σ ≤ σ' * σ') (col : Nat) (hc : col < c) :
+    ∑ i ∈ range n, ((s'.mean x).el i col - mu) ^ 2 ≤ ∑ i ∈ range n, ((s.mean x).el i col - mu) ^ 2 := by
+  obtain ⟨K1, hK1, hW1, _, _, _⟩ := C01.full_weights_solve h
+  obtain ⟨K2, hK2, hW2, _, _, _⟩ := C01.full_weights_solve h'
+  obtain ⟨K1', hK1', hN1⟩ := C01.noise_scalar cov x σ jitter
+  obtain ⟨K2', hK2', hN2⟩ := C01.noise_scalar cov x σ' jitter
+  have e1 : K1 = K1' := Except.ok.inj (hK1.symm.trans hK1')
+  have e2 : K2 = K2' := Except.ok.inj (hK2.symm.trans hK2')
+  subst e1; subst e2
+  set K := toM (gram cov x x) with hKdef
+  have hKpsd : K.PosSemidef := PSD.gram_psd hk x
+  let w : Fin n → ℝ := fun j => s.weights.el j col
+  let w' : Fin n → ℝ := fun j => s'.weights.el j col
+  let r : Fin n → ℝ := fun i => (residual y mu).el i col
+  have col_eq : ∀ (A : Mat ℝ n n) (S : CondState ℝ n d c), toM A * toM S.weights = toM (residual y mu) →
+      toM A *ᵥ (fun j : Fin n => S.weights.el j col) = r := by
+    intro A S hAS
+    funext i
+    have := congrFun (congrFun hAS i) ⟨col, hc⟩
+    simpa [Matrix.mul_apply, Matrix.mulVec, dotProduct, r] using this
+  have hw : (K + (max (σ * σ) jitter) • (1 : Matrix (Fin n) (Fin n) ℝ)) *ᵥ w = r := by
+    rw [← hN1]; exact col_eq _ s hW1
+  have hw' : (K + (max (σ' * σ') jitter) • (1 : Matrix (Fin n) (Fin n) ℝ)) *ᵥ w' = r := by
+    rw [← hN2]; exact col_eq _ s' hW2
+  have hs0 : 0 ≤ max (σ * σ) jitter := le_trans hj (le_max_right _ _)
+  have hss : max (σ * σ) jitter ≤ max (σ' * σ') jitter := max_le_max hσ le_rfl
+  have key := Shrink.shrink_mono K hKpsd hs0 hss w w' r hw hw'
+  have conv : ∀ (S : CondState ℝ n d c) (wu0 : Bool) (σ0 : ℝ),
+      fullCondInit cov x y mu Option.none (.scalar σ0) jitter Option.none false wu0 = .ok S →
+      ∑ i ∈ range n, ((S.mean x).el i col - mu) ^ 2
+        = (K *ᵥ fun j : Fin n => S.weights.el j col) ⬝ᵥ (K *ᵥ fun j : Fin n => S.weights.el j col) := by
+    intro S wu0 σ0 hS
+    rw [← sum_fin_eq_range (fun i => ((S.mean x).el i col - mu) ^ 2)]
+    simp only [dotProduct]
+    apply Finset.sum_congr rfl
+    intro i _
+    rw [insample_residual hS i col hc, sq]
+  rw [conv s wu σ h, conv s' wu' σ' h']
+  exact key
 
 /-! ### non-vacuity -/
 example : ∀ i k, i < 1 → k < 1 →
